@@ -160,7 +160,9 @@ def density_case(ctx, rng, idx):
         for a in (a_p, a_ybar, a_y):
             a.setflags(write=False)
     sens_in = np.asfortranarray(sens) if form == 'strided' else sens.copy()
-    sens_in.setflags(write=False)
+    # (read-only: a write raises; writable, every second case: compared
+    # with a snapshot after the call)
+    sens_in.setflags(write=bool((idx // len(CLASSES)) % 2))
     if form == 'list':
         # array-like: a nested list (one row per time point)
         sens_in = sens.tolist()
@@ -228,10 +230,32 @@ def density_case(ctx, rng, idx):
             ctx.violation('pointwise_sums_to_total',
                           'pointwise_sum:' + cname,
                           {'sum': float(np.sum(pw)), 'total': val}, feats)
-    # sensitivities
+    # sensitivities (the caller's arrays are read, not written: the same
+    # matrix of output sensitivities serves several evaluations)
+    snaps = [(nm_, a_, np.array(a_, dtype=float)) for nm_, a_ in (
+        ('parameters', a_p), ('model_output', a_ybar),
+        ('model_sensitivities', sens_in), ('observations', a_y))
+        if isinstance(a_, np.ndarray)]
     score, grad = model.compute_sensitivities(a_p, a_ybar, sens_in, a_y)
     grad = np.asarray(grad, dtype=float)
     ctx.count('s1_compared')
+    for nm_, a_, snap_ in snaps:
+        ctx.count('protected_arguments')
+        if not np.array_equal(np.asarray(a_, dtype=float), snap_,
+                              equal_nan=True):
+            ctx.violation('argument_unchanged',
+                          'argument_modified:%s:%s' % (cname, nm_),
+                          {'before': snap_, 'after': np.asarray(a_)}, feats)
+            return
+    if snaps:
+        _, grad2 = model.compute_sensitivities(a_p, a_ybar, sens_in, a_y)
+        if not np.array_equal(np.asarray(grad2, dtype=float), grad,
+                              equal_nan=True):
+            ctx.violation('repeat_returns_same_result',
+                          'second_call_differs:' + cname,
+                          {'first': grad, 'second': np.asarray(grad2)},
+                          feats)
+            return
     if not ctx.close(score, val, rtol=1e-10, scale=sc):
         ctx.violation('s1_score_equals_value', 's1_score:' + cname,
                       {'s1': score, 'value': val}, feats)
